@@ -8,8 +8,9 @@ head = s[:m.start()]
 tail = open('/verif/tools/design_tail.md').read()
 table = subprocess.check_output(['python3', '/verif/tools/seeded_table.py']).decode()
 metas = [json.load(open(f)) for f in sorted(glob.glob('/verif/seeded/*/meta.json'))]
-missed = sum(1 for m_ in metas if 'MISSED' in m_['check_result']['detail'])
-tail = tail.replace('SEEDED_TABLE', table).replace('N_TOTAL', str(len(metas))).replace('N_MISSED', str(missed)).replace('N_CAUGHT', str(len(metas) - missed))
+missed = sum(1 for m_ in metas if 'MISSED' in m_['check_result']['detail'] or m_['check_result']['verdict'] != 'caught')
+final_missed = sum(1 for m_ in metas if m_['check_result']['verdict'] != 'caught')
+tail = tail.replace('SEEDED_TABLE', table).replace('N_TOTAL', str(len(metas))).replace('N_MISSED', str(missed)).replace('N_CAUGHT', str(len(metas) - missed)).replace('N_FINAL_OK', str(len(metas) - final_missed))
 fixes = subprocess.check_output(['git', '-C', '/repo', 'log', '--format=%s']).decode().splitlines()
 tail = tail.replace('N_FIXES', str(sum(1 for l in fixes if l.startswith('fix:'))))
 open(D, 'w').write(head + tail)
